@@ -27,7 +27,7 @@ SPEC = {
 }
 
 KINDS = ["compile_ok", "compile_version_too_low", "body_raises", "abi_body_raises", "uninit", "type_error", "router_ok", "router_fails", "mutual",
-         "templates", "many_slots", "crashpoint", "crashpoint", "crashpoint"]
+         "templates", "assembled_literals", "assembled_literals", "many_slots", "crashpoint", "crashpoint", "crashpoint"]
 
 
 def plan(tier, seed):
